@@ -25,6 +25,11 @@ InputsWF(e)  == /\ MatWF(e.A) /\ e.A.n = e.n /\ e.A.m = e.n
 
 \* bit-for-bit: checksums of the operand arrays (A: data, indices, indptr; b; x) before and after the call
 Unchanged(e) == e.ov = 0 => e.ck2 = e.ck
+\* the index arrays the caller hands over are never written, whatever `overwrite` says (checksums before / after)
+IndexArgsUnchanged(e) == e.ckix2 = e.ckix
+\* writing into the RESULTS afterwards does not reach the operands (no result aliases an operand) -- ck4 = checksums of
+\* the operands after the harness wrote into every returned array in place
+ResultsIndependent(e) == e.ov = 0 => e.ck4 = e.ck
 
 EnforceClauses(e) ==
   IF e.err # "" \/ e.exact = 0 THEN [NoError |-> e.err = "", EntriesIntegral |-> e.exact = 1]
@@ -32,6 +37,8 @@ EnforceClauses(e) ==
   THEN [ResultWellFormed |-> FALSE]
   ELSE [NoError |-> TRUE, EntriesIntegral |-> TRUE, ResultWellFormed |-> TRUE,
         EnforceRowsExact |-> EnforceRowsExact(e.Ao, e.D, e.diag),
+        IndexArgumentsUnchanged |-> IndexArgsUnchanged(e),
+        ResultsIndependentOfOperands |-> ResultsIndependent(e),
         EnforceOthersUntouched |-> EnforceOthersUntouched(e.A, e.Ao, e.D),
         OperandsUnchanged |-> Unchanged(e)]
        @@ (IF HasVecB(e) THEN [EnforceRhsVector |-> EnforceRhsVector(BOf(e), e.bo, XOf(e), e.D)] ELSE <<>>)
@@ -47,6 +54,8 @@ CondenseClauses(e) ==
   THEN [ResultWellFormed |-> FALSE]
   ELSE [NoError |-> TRUE, EntriesIntegral |-> TRUE, ResultWellFormed |-> TRUE,
         CondensedMatrixIsRestriction |-> CondensedMatrixIsRestriction(e.A, e.AII, IOf(e)),
+        IndexArgumentsUnchanged |-> IndexArgsUnchanged(e),
+        ResultsIndependentOfOperands |-> ResultsIndependent(e),
         OperandsUnchanged |-> e.ck2 = e.ck]
        @@ (IF e.expand = 1 THEN [KeptIsComplement |-> KeptIsComplement(e.n, e.Ir, e.D),
                                  ReturnedValues |-> e.xr = XOf(e)] ELSE <<>>)
@@ -65,6 +74,8 @@ PenalizeClauses(e) ==
   THEN [ResultWellFormed |-> FALSE]
   ELSE [NoError |-> TRUE, EntriesIntegral |-> TRUE, ResultWellFormed |-> TRUE,
         PenalizeKeptRowsUntouched |-> PenalizeKeptRowsUntouched(e.A, e.Ao, e.D),
+        IndexArgumentsUnchanged |-> IndexArgsUnchanged(e),
+        ResultsIndependentOfOperands |-> ResultsIndependent(e),
         PenalizeRows |-> PenalizeRows(e.A, e.Ao, e.D, e.ie),
         OperandsUnchanged |-> Unchanged(e)]
        @@ (IF HasVecB(e) THEN [PenalizeRhs |-> PenalizeRhs(BOf(e), e.bo, XOf(e), e.D, e.ie)] ELSE <<>>)
